@@ -1,11 +1,316 @@
-//! C18: executes a call history in several ways inside the worker and compares.
+//! C18: executes a call history in several ways inside the worker and compares every result with the
+//! result of the same call on a freshly compiled Regex.
 use crate::proto::*;
+use crate::worker::{analyze_of, compile, conv_a, tokens_of};
+use regexml::Regex;
+use std::panic::{catch_unwind, AssertUnwindSafe};
 
-pub fn execute_history(_h: &History) -> Outcome {
+#[derive(Clone, Debug, PartialEq)]
+enum CallResult {
+    Bool(Res<bool>),
+    Str(Res<String>),
+    Tokens(Res<IterOut<String>>),
+    Entries(Res<IterOut<AEntry>>),
+}
+
+#[derive(Clone, Debug)]
+enum Call {
+    IsMatch(usize, String),
+    Replace(usize, String, String),
+    Tokens(usize, String),
+    Analyze(usize, String),
+}
+
+fn guarded<T>(f: impl FnOnce() -> Result<T, regexml::Error>) -> Res<T> {
+    match catch_unwind(AssertUnwindSafe(f)) {
+        Ok(Ok(v)) => Res::Ok(v),
+        Ok(Err(e)) => Res::Err(match e {
+            regexml::Error::Internal => ErrKind::Internal,
+            regexml::Error::InvalidFlags(_) => ErrKind::InvalidFlags,
+            regexml::Error::Syntax(_) => ErrKind::Syntax,
+            regexml::Error::MatchesEmptyString => ErrKind::MatchesEmptyString,
+            regexml::Error::InvalidReplacementString(_) => ErrKind::InvalidReplacementString,
+        }),
+        Err(_) => Res::Panic("panic".into()),
+    }
+}
+
+fn run_call(re: &Regex, c: &Call) -> CallResult {
+    match c {
+        Call::IsMatch(_, s) => CallResult::Bool(guarded(|| Ok(re.is_match(s)))),
+        Call::Replace(_, s, r) => CallResult::Str(guarded(|| re.replace_all(s, r))),
+        Call::Tokens(_, s) => CallResult::Tokens(tokens_of(re, s)),
+        Call::Analyze(_, s) => CallResult::Entries(analyze_of(re, s)),
+    }
+}
+
+fn re_index(c: &Call) -> usize {
+    match c {
+        Call::IsMatch(i, _) | Call::Replace(i, _, _) | Call::Tokens(i, _) | Call::Analyze(i, _) => *i,
+    }
+}
+
+struct Lcg(u64);
+impl Lcg {
+    fn next(&mut self) -> u64 {
+        self.0 = self.0.wrapping_mul(6364136223846793005).wrapping_add(1442695040888963407);
+        self.0 >> 33
+    }
+}
+
+/// shares a reference across threads whatever the auto traits say (the Send + Sync claim itself is
+/// checked at compile time by the separate `sendsync` crate)
+struct Shared<'a>(&'a [Regex]);
+unsafe impl Send for Shared<'_> {}
+unsafe impl Sync for Shared<'_> {}
+
+enum Live<'a> {
+    Tokens { re: usize, input: String, it: regexml_token_iter::It<'a>, got: Vec<String>, done: bool },
+    Analyze { re: usize, input: String, it: Box<dyn Iterator<Item = regexml::AnalyzeEntry> + 'a>, got: Vec<AEntry>, done: bool },
+}
+
+/// the token iterator type is not exported by name; go through a boxed iterator
+mod regexml_token_iter {
+    pub type It<'a> = Box<dyn Iterator<Item = String> + 'a>;
+}
+
+pub fn execute_history(h: &History) -> Outcome {
+    let mut mismatches: Vec<String> = vec![];
+    let fresh = |i: usize| -> Option<Regex> {
+        let (d, p, f) = &h.pool[i];
+        match compile(*d, p, f, false) {
+            Res::Ok(r) => Some(r),
+            _ => None,
+        }
+    };
+    // shared objects
+    let mut pool: Vec<Regex> = vec![];
+    for i in 0..h.pool.len() {
+        match fresh(i) {
+            Some(r) => pool.push(r),
+            None => {
+                return Outcome {
+                    compile: Res::Ok(Facts::default()),
+                    compile_cutoffs: 0,
+                    per_input: vec![],
+                    history: Some(HistoryOutcome { mismatches: vec![], calls: 0, max_live_iters_on_one_regex: 0, shared_pattern_pairs: 0, compile_failed: true }),
+                }
+            }
+        }
+    }
+    let np = pool.len();
+    let mut shared_pairs = 0;
+    for i in 0..np {
+        for j in i + 1..np {
+            if h.pool[i] == h.pool[j] {
+                shared_pairs += 1;
+            }
+        }
+    }
+    // the simple calls of the history, with expected results from fresh objects (execution 1)
+    let mut calls: Vec<Call> = vec![];
+    for op in &h.ops {
+        match op {
+            Op::IsMatch { re, input } => calls.push(Call::IsMatch(re % np, input.clone())),
+            Op::Replace { re, input, rep } => calls.push(Call::Replace(re % np, input.clone(), rep.clone())),
+            Op::OpenTokens { re, input } => calls.push(Call::Tokens(re % np, input.clone())),
+            Op::OpenAnalyze { re, input } => calls.push(Call::Analyze(re % np, input.clone())),
+            _ => {}
+        }
+    }
+    let expected: Vec<CallResult> = calls
+        .iter()
+        .map(|c| match fresh(re_index(c)) {
+            Some(r) => run_call(&r, c),
+            None => CallResult::Bool(Res::Panic("compile failed the second time".into())),
+        })
+        .collect();
+    // re-running any call on another fresh object gives the same answer
+    for (c, e) in calls.iter().zip(expected.iter()).take(6) {
+        if let Some(r) = fresh(re_index(c)) {
+            if run_call(&r, c) != *e {
+                mismatches.push(format!("two fresh objects disagree on {c:?}"));
+            }
+        }
+    }
+
+    // execution 2: the history in order on the shared objects, iterators interleaved
+    let mut live: Vec<Live> = vec![];
+    let mut max_live_one = 0usize;
+    let mut ci = 0usize;
+    let expected_for = |ci: usize| expected[ci].clone();
+    let mut finish = |l: Live, mism: &mut Vec<String>, full: bool, exp: &[(usize, String, bool, CallResult)]| {
+        // compare what this iterator produced with the expected output (prefix if dropped early)
+        let (re, input, is_tok, got_t, got_a) = match l {
+            Live::Tokens { re, input, got, .. } => (re, input, true, got, vec![]),
+            Live::Analyze { re, input, got, .. } => (re, input, false, vec![], got),
+        };
+        if let Some((_, _, _, e)) = exp.iter().find(|(r, s, t, _)| *r == re && *s == input && *t == is_tok) {
+            match e {
+                CallResult::Tokens(Res::Ok(it)) => {
+                    let ok = if full { it.items == got_t } else { it.items.len() >= got_t.len() && it.items[..got_t.len()] == got_t[..] };
+                    if !ok {
+                        mism.push(format!("interleaved tokenize on regex #{re} input {input:?}: got {got_t:?}, fresh object gives {:?}", it.items));
+                    }
+                }
+                CallResult::Entries(Res::Ok(it)) => {
+                    let ok = if full { it.items == got_a } else { it.items.len() >= got_a.len() && it.items[..got_a.len()] == got_a[..] };
+                    if !ok {
+                        mism.push(format!("interleaved analyze on regex #{re} input {input:?}: got {got_a:?}, fresh object gives {:?}", it.items));
+                    }
+                }
+                _ => {}
+            }
+        }
+    };
+    let exp_iters: Vec<(usize, String, bool, CallResult)> = calls
+        .iter()
+        .zip(expected.iter())
+        .filter_map(|(c, e)| match c {
+            Call::Tokens(r, s) => Some((*r, s.clone(), true, e.clone())),
+            Call::Analyze(r, s) => Some((*r, s.clone(), false, e.clone())),
+            _ => None,
+        })
+        .collect();
+    let step = |l: &mut Live, k: usize| {
+        for _ in 0..k {
+            match l {
+                Live::Tokens { it, got, done, input, .. } => {
+                    if *done || got.len() > input.chars().count() + 3 {
+                        break;
+                    }
+                    match catch_unwind(AssertUnwindSafe(|| it.next())) {
+                        Ok(Some(t)) => got.push(t),
+                        _ => *done = true,
+                    }
+                }
+                Live::Analyze { it, got, done, input, .. } => {
+                    if *done || got.len() > 2 * input.chars().count() + 3 {
+                        break;
+                    }
+                    match catch_unwind(AssertUnwindSafe(|| it.next())) {
+                        Ok(Some(t)) => got.push(conv_a(&t)),
+                        _ => *done = true,
+                    }
+                }
+            }
+        }
+    };
+    for op in &h.ops {
+        match op {
+            Op::IsMatch { .. } | Op::Replace { .. } => {
+                let c = &calls[ci];
+                let got = run_call(&pool[re_index(c)], c);
+                if got != expected_for(ci) {
+                    mismatches.push(format!("in-order history: {c:?} on the shared object gives {got:?}, on a fresh object {:?}", expected[ci]));
+                }
+                ci += 1;
+            }
+            Op::OpenTokens { re, input } => {
+                let r = re % np;
+                if let Ok(Ok(it)) = catch_unwind(AssertUnwindSafe(|| pool[r].tokenize(input))) {
+                    live.push(Live::Tokens { re: r, input: input.clone(), it: Box::new(it), got: vec![], done: false });
+                }
+                ci += 1;
+            }
+            Op::OpenAnalyze { re, input } => {
+                let r = re % np;
+                if let Ok(Ok(it)) = catch_unwind(AssertUnwindSafe(|| pool[r].analyze(input))) {
+                    live.push(Live::Analyze { re: r, input: input.clone(), it: Box::new(it), got: vec![], done: false });
+                }
+                ci += 1;
+            }
+            Op::Step { iter, k } => {
+                if !live.is_empty() {
+                    let n = live.len();
+                    step(&mut live[iter % n], *k);
+                }
+            }
+            Op::Drop { iter } => {
+                if !live.is_empty() {
+                    let n = live.len();
+                    let l = live.remove(iter % n);
+                    let full = match &l {
+                        Live::Tokens { done, .. } | Live::Analyze { done, .. } => *done,
+                    };
+                    finish(l, &mut mismatches, full, &exp_iters);
+                }
+            }
+        }
+        for r in 0..np {
+            let n = live
+                .iter()
+                .filter(|l| match l {
+                    Live::Tokens { re, .. } | Live::Analyze { re, .. } => *re == r,
+                })
+                .count();
+            max_live_one = max_live_one.max(n);
+        }
+    }
+    // drain what is still alive, round-robin
+    let mut guard = 0;
+    while live.iter().any(|l| match l {
+        Live::Tokens { done, .. } | Live::Analyze { done, .. } => !*done,
+    }) && guard < 10_000
+    {
+        for l in live.iter_mut() {
+            step(l, 1);
+        }
+        guard += 1;
+    }
+    for l in live.drain(..) {
+        finish(l, &mut mismatches, true, &exp_iters);
+    }
+
+    // execution 3: the calls in a seeded shuffled order on the shared objects
+    let mut order: Vec<usize> = (0..calls.len()).collect();
+    let mut rng = Lcg(h.shuffle_seed | 1);
+    for i in (1..order.len()).rev() {
+        let j = (rng.next() as usize) % (i + 1);
+        order.swap(i, j);
+    }
+    for &i in &order {
+        let got = run_call(&pool[re_index(&calls[i])], &calls[i]);
+        if got != expected[i] {
+            mismatches.push(format!("shuffled order: {:?} on the shared object gives {got:?}, on a fresh object {:?}", calls[i], expected[i]));
+        }
+    }
+
+    // execution 4: the same calls from several threads sharing the objects
+    if h.threads > 1 && !calls.is_empty() {
+        let shared = Shared(&pool);
+        let barrier = std::sync::Barrier::new(h.threads as usize);
+        let found: std::sync::Mutex<Vec<String>> = std::sync::Mutex::new(vec![]);
+        std::thread::scope(|sc| {
+            for t in 0..h.threads as usize {
+                let shared = &shared;
+                let barrier = &barrier;
+                let found = &found;
+                let calls = &calls;
+                let expected = &expected;
+                sc.spawn(move || {
+                    let pool = shared.0;
+                    barrier.wait();
+                    for rep in 0..h.thread_reps as usize {
+                        for k in 0..calls.len() {
+                            let i = (k + t * 7 + rep * 3) % calls.len();
+                            let got = run_call(&pool[re_index(&calls[i])], &calls[i]);
+                            if got != expected[i] {
+                                found.lock().unwrap().push(format!("thread {t}: {:?} gives {got:?}, on a fresh object {:?}", calls[i], expected[i]));
+                                return;
+                            }
+                        }
+                    }
+                });
+            }
+        });
+        mismatches.extend(found.into_inner().unwrap());
+    }
+    mismatches.truncate(5);
     Outcome {
         compile: Res::Ok(Facts::default()),
         compile_cutoffs: 0,
         per_input: vec![],
-        history: Some(HistoryOutcome { mismatches: vec!["not implemented".into()], calls: 0, max_live_iters_on_one_regex: 0, shared_pattern_pairs: 0, compile_failed: false }),
+        history: Some(HistoryOutcome { mismatches, calls: calls.len(), max_live_iters_on_one_regex: max_live_one, shared_pattern_pairs: shared_pairs, compile_failed: false }),
     }
 }
